@@ -170,6 +170,8 @@ def run_case(doc, fs, ex, want_code=False):
     r['decls'] = parse_decls(code)
     if want_code:
         r['code'] = code
+    if not isinstance(doc, (dict, list)):
+        return r            # a scalar root must not get this far (the caller's predicate: generation raises)
     r.update(exec_and_load(doc, code))
     return r
 
@@ -190,6 +192,20 @@ def h_regen(p):
             out.append(hashlib.sha256(code.encode('utf-8', 'surrogatepass')).hexdigest()[:16])
         except BaseException as e:
             out.append('err:' + type(e).__name__)
+    return out
+
+
+def h_fresh(p):
+    """every case in its OWN interpreter: the text a generation gives with no history at all"""
+    import subprocess
+    out = []
+    for c in p:
+        q = subprocess.run([sys.executable, os.path.abspath(__file__)], input=json.dumps({'regen': [c]}),
+                           capture_output=True, text=True, timeout=120)
+        if q.returncode != 0:
+            out.append('err:runner:' + q.stderr[-200:])
+        else:
+            out.append(json.loads(q.stdout)['regen'][0])
     return out
 
 
@@ -262,6 +278,8 @@ def handler(p):
         res['cases'] = h_cases(p['cases'])
     if 'regen' in p:
         res['regen'] = h_regen(p['regen'])
+    if 'fresh' in p:
+        res['fresh'] = h_fresh(p['fresh'])
     if 'interleaved' in p:
         res['interleaved'] = h_interleaved(p['interleaved'])
     return res
